@@ -70,8 +70,18 @@ def nt_c10(e):
     return e["obs"]["len"] == -1 or e.get("gerr") == 1 or e.get("res") == -1
 
 
+TV_NOTE = ("Trusted: TLC and the CommunityModules overrides; the harness encoder (self-tested) and its digests; reference renderings "
+           "named in DESIGN.md section 9. The verdict of every event is TLC's evaluation of the specification on an execution of the real code; "
+           "inputs beyond the generated/emitted ones are not covered.")
+
+NOT_APPLICABLE = {}
+
 PROPS = {
     "C08": dict(level="model_checking", nontrivial=nt_c08,
+                text="Every New / Select / Drop / Slice / Copy call of the emitted and generated scenarios is executed on the real library and "
+                     "its observed result is compared by TLC with NewSem / SelectSem / DropSem / SliceSem / CopySem of spec/Ops.tla applied to the "
+                     "specification's own state; the length/order/enum configuration space of New is enumerated completely for <=3 columns of length 0..2.",
+                note=TV_NOTE, technique="TLA+ specification (Ops.tla) + TLC trace validation of harness executions",
                 rule="events are New calls (every assignment of lengths 0..2 to <=3 columns in every order, order/enum configuration errors, "
                      "illegal names, all data kinds, random maps) and Select/Drop/Slice/Copy requests (valid and invalid) on frames derived by "
                      "sort/slice/filter/distinct; non-trivial = New with >=1 column or a projection; distinct by (operation, arguments, result digest)"),
